@@ -25,6 +25,16 @@ Search (oracle independent of the model):
       the symbolic target), each also on an input already at the settled layout (same-chunks fixed point).
       Internal consistency: a Rechunk / TasksRechunk node's estimate equals that of the node built directly from
       (input chunks -> node.chunks) with the same planner keywords.
+  (e) index multisets and operand multiplicities (harness/props_ext/c27_multiset.py): every Shuffle node met by any
+      stream in any phase is compared with a brute-force count over (input chunks, output chunks, indexer) -- min = rows
+      of each output chunk outside its largest source contribution (repeats included), max = touched source blocks whole
+      + pieces of multi-source chunks, as the implementation's comments define them -- and with the same sums read off
+      the node's real task layer; single-source output chunks move 0 under min; the estimate is invariant under
+      permutation of rows within an output chunk.  A stream of take / x[list] / x[ndarray] / vindex / da.shuffle /
+      x.shuffle programs with repeated, all-equal, unsorted, every-block-once, single-block, interleaved, boundary,
+      negative, empty index lists over ragged layouts (single-row and zero-length blocks), rank 1-3, every axis; and of
+      concatenate / stack of the same array k times, broadcast_to, tile, repeat, block (Stack / Concatenate: max <=
+      bytes of the input blocks the layer references).
 Targeted: disagreeing helper inputs are lifted to `da.from_array(...).rechunk(...)` nodes.
 """
 from __future__ import annotations
@@ -344,6 +354,10 @@ def apply_step(da, a, step):
         from harness.props_ext import c27_consistency as CONS
 
         return CONS.apply_rechunk_step(da, a, step)
+    if op in ("ms_index", "ms_mult"):
+        from harness.props_ext import c27_multiset as MS
+
+        return MS.apply_ms_step(da, a, step)
     if op == "reduce":
         _, name, axis, split_every, keepdims = step
         axis = tuple(axis) if isinstance(axis, list) else axis
@@ -693,6 +707,15 @@ def check_node(ctx, node, prog, phase, ArrayExpr, Alias, seen, light=False):
         from harness.props_ext import c27_consistency as CONS
 
         CONS.rechunk_consistency(ctx, node, case, lo, hi)
+    # index multisets: brute-force and task-layer oracles for every Shuffle node (harness/props_ext/c27_multiset.py)
+    if cls == "Shuffle" and not unknown and why is None:
+        from harness.props_ext import c27_multiset as MS
+
+        MS.judge_shuffle(ctx, node, case, lo, hi)
+    if cls in ("Stack", "Concatenate") and not unknown and why is None:
+        from harness.props_ext import c27_multiset as MS
+
+        MS.judge_fetch_bound(ctx, node, case, lo, hi, ArrayExpr)
     is_alias = False
     if not light and phase in ("lowered", "lowered-raw", "fused", "materialized") and cls != "FromArray" and node_graph_cost(node) <= HEAVY_TASKS:
         try:
@@ -880,6 +903,9 @@ def search_trees(ctx):
     t_ = ctx.elapsed()
     CONS.rechunk_kw_stream(ctx, da, me, seen)
     ctx.notes["rechunk_kw_stream_seconds"] = round(ctx.elapsed() - t_, 1)
+    from harness.props_ext import c27_multiset as MS
+
+    MS.multiset_stream(ctx, da, me, seen)
     ctx.notes["distinct_nodes_checked"] = len(seen)
     coverage_report(ctx, CAT)
 
@@ -1104,6 +1130,9 @@ def run(ctx, replay=None):
         "adjust_chunks, literal / repeated operands) and raw rechunk nodes for every keyword (balance, method, threshold, block_size_limit) "
         "and target form (tuples/ints/-1/None/auto/dict/scalar; method, function, positional, raw node), each repeated on an input already "
         "at the settled layout; every Rechunk/TasksRechunk node is compared with the node built directly from (input chunks -> node.chunks); "
+        "index multisets (harness/props_ext/c27_multiset.py): every (multiset kind x construction route) pair and every fixed ragged layout x "
+        "repeat kind in every run + seeded cases, each Shuffle node judged by a brute-force count and by its task layer; operand "
+        "multiplicities (same array k times into concatenate/stack/block, broadcast_to, tile, repeat); "
         "a case class is (helper, kind, zero/equal flags, size class) or (phase, node class, min==0, min==max, alias, unknown-sizes) "
         "or (catalog family, variant, config-method)"
     )
